@@ -186,3 +186,16 @@ PROPS["C10"] = {
     "level_text": "Machine-checked Lean 4 theorems: performUpdateCheck_sents / responsePhase_sents / installPhase_sents (reports_by_path: for every world and environment the event reports on the wire are exactly pathBuilders of the path taken — parse-error for all apps; plan-error / deferred / denied for the known offered apps; download-started, the per-app result report, update-complete for the installed apps iff any — in order, each at most once, minus those that cannot be built), reportEvent_sents / reportResults_sents / sents_omahaRequest (one call = at most one request with exactly the builder's payload: never retried), reportEvent_lost / reportResults_lost / losts_fold (an undelivered report is counted lost once per logical event, a delivered one never), eventBuilder_payload + nextVersions_has + parseError_all_apps + installedApps_spec + event_codes (event_fields: which apps, current version as previous version, manifest version as next version, protocol codes); same session on every request and parameters via C05's Canon chain; outcome-independence by C04's performUpdateCheck_result/marks (result and announcements are functions of the path, which does not read report outcomes). Tied to state_machine.rs by the per-unit differential run.",
     "level_note": "Trusted: Lean kernel; the hand-written state-machine model; harness and diff. Freshness of request ids is checked on every unit by the correspondence (first-occurrence indices of the GUIDs read off the wire), not stated as a theorem.",
 }
+
+PROPS["C09"] = {
+    "lean_modules": ["Omaha.Props.C09"],
+    "streams": sm_stream([[r"P (next|allowed)", ["apps="]],
+                          [r"H (uc|ping)", ["->"], r"(?<=[\[;])[^|;\]]*\|[^|]*\|[^|]*\|[^|]*\|[^|]*\|[^|]*(?=\|)|ping=[^|;\]]*"],
+                          r"S set x(?!7365727665725f|6c6173745f|636f6e7365637574|696e7374616c6c5f|7570646174655f|7461726765745f)", r"S commit", r"E result",
+                          [r"Z ", ["apps=", "comm="]]]),
+    "rule": SM_RULE + "; responses carry every subset of cohort / cohorthint / cohortname as absent, empty or a value, daystart absent / without elapsed_days / with a day number, for any subset of the app set in any order plus unknown and duplicated ids; after a history the process restarts (up to twice) on the storage the library committed, with the embedder presetting a fresh random combination of cohort fields and user-counting day; projection: the app set handed to every policy call, the identification / cohort fields and ping dates of every update-check and ping request, storage writes under app ids, commits, the check result, end-of-unit app set and committed storage",
+    "trusted_extra": SM_TRUSTED + ["the JSON text of a persisted app record (render, and decode at restart) is modelled; its round trip is established by the restart units of the correspondence, not as a theorem"],
+    "assumptions": ["next_request_sends is stated for app sets with distinct ids; the response's day number is the same for every app (it comes from the response's daystart)"],
+    "level_text": "Machine-checked Lean 4 theorems: cohort_merge / cohort_empty_overwrites (present-even-empty overwrites, absent keeps, per field), updateFromOmaha_spec / updateFromOmaha_unnamed / updateFromOmaha_keeps (every app named in the response — any order, any count — takes the merge with the first entry bearing its id and the response's day number; apps not named, and all other fields, unchanged), makeAppResponses_data / installResponses_data (what the check hands to the merge is the response's own cohort and day number on every path), finishCheckOk_apps / finishCheckErr_apps / check_keeps_apps_until_end / pingSucceeded_apps / pingFailed_apps (only successful checks and pings change apps), checkBuilder_wire / pingBuilder_wire (the next request sends exactly the app's cohort fields and ad = rd = its day number), persistData_ops / persistApps_ops / finishCheckOk_persists_merged / pingSucceeded_persists_merged / persistedAppJson_shape (one write per app under its id carrying the merged values, then a commit, in the same batch as the check's context), loadApp_spec / loadApp_absent / loadApp_undecodable (restore fills exactly the unset fields). Tied to the code by the per-unit differential run incl. restarts on library-written storage.",
+    "level_note": "Trusted: Lean kernel; the hand-written state-machine model; harness and diff. Histories: every unit starts from the app set and storage the real machine reached; the per-step theorems hold for every start state.",
+}
